@@ -58,8 +58,25 @@ func anyRouter(*http.Request, *types.Context) bool { return true }
 // 前一个对象返回的实例将作为下一个对象的输入参数。
 func AndMatcher(m ...Matcher) Matcher {
 	return MatcherFunc(func(r *http.Request, ctx *types.Context) bool {
+		path := r.URL.Path
+		params := make(map[string]string, ctx.Count())
+		ctx.Range(func(k, v string) { params[k] = v })
+
 		for _, mm := range m {
-			if !mm.Match(r, ctx) {
+			if !mm.Match(r, ctx) { // 恢复被之前已经匹配的对象修改过的内容
+				r.URL.Path = path
+				added := make([]string, 0, ctx.Count())
+				ctx.Range(func(k, _ string) {
+					if _, found := params[k]; !found {
+						added = append(added, k)
+					}
+				})
+				for _, k := range added {
+					ctx.Delete(k)
+				}
+				for k, v := range params {
+					ctx.Set(k, v)
+				}
 				return false
 			}
 		}
